@@ -404,6 +404,17 @@ def both_s(ctx, cfg, lines):
 def run_lines_s(binary, lines, tag):
     return spread(lambda ls: engine.run_lines(binary, ls, tag), lines)
 
+def pick(lits, n_short, n_long, cut=64):
+    """indices of an evenly spaced sample: at most n_short literals of at most `cut` bytes and n_long longer ones
+    (the extracted Coq oracle divides big integers bit by bit: ~4 ms per short literal, ~100 ms per 700-digit one)"""
+    sh = [i for i, l in enumerate(lits) if len(l) <= cut]
+    lo = [i for i, l in enumerate(lits) if len(l) > cut]
+    def ev(xs, n):
+        if len(xs) <= n:
+            return xs
+        return [xs[(j * len(xs)) // n] for j in range(n)]
+    return sorted(ev(sh, n_short) + ev(lo, n_long))
+
 def have_model(name):
     return os.path.exists(os.path.join(engine.VERIF, 'ocaml', name))
 
@@ -434,9 +445,12 @@ def judge_lits(ctx, cfg, inputs, aux=None):
             v.append({'what': what, 'cfg': cfg, 'input': hx(d), 'literal': d[:200].decode('latin-1'),
                       'expected': 'correctly rounded %s (exact big-integer oracle): %s' % (target, e), 'actual': a,
                       'op': 'from_str/from_slice/from_reader::<%s>, in a Vec, in a Value' % target, 'aux': {'target': target}})
-    # the Coq oracle on the same (m, e10)
+    # the Coq side on a sample (all of it when the list is short, e.g. in a replay)
+    mult = 1 if ctx.tier == 'quick' else 2
     parts = [lit_parts(d) for d in inputs]
-    idx = [i for i, p in enumerate(parts) if p is not None]
+    # (a) the oracle itself (Base/FloatB.rne_decimal, Model/Lex.rne_decimal32) on the same (m, e10)
+    n_or = (6000, 100) if target == 'f64' else (15000, 300)
+    idx = [i for i in pick(inputs, n_or[0] * mult, n_or[1] * mult) if parts[i] is not None]
     mo = model_lines(ctx, ['or %s %d %d' % (fmt.letter, parts[i][1], parts[i][2]) for i in idx], 'sjdriver_lex')
     if mo is not None:
         for i, m in zip(idx, mo):
@@ -444,23 +458,27 @@ def judge_lits(ctx, cfg, inputs, aux=None):
             if m != fmt.hex(bits):
                 v.append({'what': 'coq-oracle-differs-from-python-oracle', 'cfg': cfg, 'input': hx(inputs[i]), 'expected': fmt.hex(bits), 'actual': m,
                           'aux': {'target': target}, 'shrinkable': False})
-    # through the parser model: Value
+    # (b) through the parser: from_slice::<Value> in the implementation (all literals) and in the parser model (sample)
     if target == 'f64' and 'arbitrary_precision' not in feats:
         L = ctx.letters(cfg)
-        lines = ['pv %s b %s' % (L, hx(d)) for d in inputs]
-        io, mo = both_s(ctx, cfg, lines)
-        for d, a, m in zip(inputs, io, mo):
+        io = impl_s(ctx, cfg, ['pv %s b %s' % (L, hx(d)) for d in inputs])
+        def agrees(x, e):
+            return e is None or x == e or (e.startswith('err') and x.startswith(e))
+        for d, a in zip(inputs, io):
             e = expect_value(d)
-            def agrees(x):
-                return e is None or x == e or (e.startswith('err') and x.startswith(e))
-            if not agrees(a):
+            if not agrees(a, e):
                 v.append({'what': 'value-not-correctly-rounded', 'cfg': cfg, 'input': hx(d), 'literal': d[:200].decode('latin-1'),
                           'expected': 'exact oracle: ' + e, 'actual': a, 'op': 'from_slice::<Value>', 'aux': {'target': target}})
-            if m != 'NOMODEL' and not agrees(m):
-                v.append({'what': 'parser-model-differs-from-oracle', 'cfg': cfg, 'input': hx(d), 'expected': 'exact oracle: %s' % e, 'actual': 'model: %s impl: %s' % (m, a),
-                          'aux': {'target': target}, 'shrinkable': False})
-            if m != 'NOMODEL' and a != m:
-                ctx.disagreements.append({'input': hx(d), 'impl': a, 'model': m, 'cfg': cfg})
+        idx = pick(inputs, 30000 * mult, 400 * mult)
+        mo = model_lines(ctx, ['pv %s b %s' % (L, hx(inputs[i])) for i in idx], 'sjdriver')
+        if mo is not None:
+            for i, m in zip(idx, mo):
+                e = expect_value(inputs[i])
+                if m != 'NOMODEL' and not agrees(m, e):
+                    v.append({'what': 'parser-model-differs-from-oracle', 'cfg': cfg, 'input': hx(inputs[i]), 'expected': 'exact oracle: %s' % e,
+                              'actual': 'model: %s impl: %s' % (m, io[i]), 'aux': {'target': target}, 'shrinkable': False})
+                if m != 'NOMODEL' and io[i] != m:
+                    ctx.disagreements.append({'input': hx(inputs[i]), 'impl': io[i], 'model': m, 'cfg': cfg})
     return v
 
 # ---- serialise-then-deserialise
@@ -655,7 +673,10 @@ def check_algorithm(ctx, cfg, lits64, lits32, binary):
     lines = [c[0] for c in cases]
     io = run_lines_s(binary, lines, 'C07-lx')
     ctx.evaluations += len(lines)
-    mo = model_lines(ctx, lines, 'sjdriver_lex')
+    mult = 1 if ctx.tier == 'quick' else 4
+    midx = pick(lines, 100000 * mult, 1500 * mult, cut=80)
+    mo_s = model_lines(ctx, [lines[i] for i in midx], 'sjdriver_lex')
+    mo = dict(zip(midx, mo_s)) if mo_s is not None else None
     paths = {}
     for i, (line, fmt, m, e) in enumerate(cases):
         a = io[i]
@@ -669,18 +690,20 @@ def check_algorithm(ctx, cfg, lits64, lits32, binary):
                 v.append({'what': 'lexical-not-correctly-rounded', 'cfg': cfg, 'input': line, 'expected': 'exact oracle: ' + fmt.hex(bits), 'actual': a, 'shrinkable': False})
         else:
             v.append({'what': 'lexical-internal-op-failed', 'cfg': cfg, 'input': line, 'expected': 'a trace whose parts reproduce parse_concise_float / parse_truncated_float', 'actual': a, 'shrinkable': False})
-        if mo is not None and mo[i] != a:
+        if mo is not None and i in mo and mo[i] != a:
             ctx.disagreements.append({'input': line, 'impl': a, 'model': mo[i], 'cfg': cfg, 'op': 'lx'})
             if mo[i].split(' ')[-1] != a.split(' ')[-1]:
                 v.append({'what': 'algorithm-model-result-differs', 'cfg': cfg, 'input': line, 'expected': 'Model/Lex.v: ' + mo[i], 'actual': a, 'shrinkable': False})
     for kx, nx in paths.items():
         ctx.count('lexical-path:' + kx, nx)
+    ctx.count('lx-model-compared', len(midx) if mo is not None else 0)
     if mo is not None:
-        lo = model_lines(ctx, ['lo' + l[2:] for l in lines], 'sjdriver_lex')
-        for l, o in zip(lines, lo):
+        lidx = pick(lines, 15000 * mult, 300 * mult, cut=80)
+        lo = model_lines(ctx, ['lo' + lines[i][2:] for i in lidx], 'sjdriver_lex')
+        for i, o in zip(lidx, lo):
             f = o.split(' ')
             if len(f) != 2 or f[0] != f[1]:
-                v.append({'what': 'algorithm-model-differs-from-coq-oracle', 'cfg': cfg, 'input': l, 'expected': 'oracle ' + f[-1], 'actual': 'Model/Lex.v ' + f[0], 'shrinkable': False})
+                v.append({'what': 'algorithm-model-differs-from-coq-oracle', 'cfg': cfg, 'input': lines[i], 'expected': 'oracle ' + f[-1], 'actual': 'Model/Lex.v ' + f[0], 'shrinkable': False})
     # ExtendedFloat pieces
     ef = []
     for _ in range(20000 if ctx.tier == 'quick' else 200000):
@@ -740,7 +763,7 @@ def check_bigint(ctx, cfg, binary):
     for i in range(n):
         reach = i % 10 != 9
         x = big(reach)
-        y = rng.choice([0, 1, 10, 2 ** 64 - 1, 10 ** 19, rng.getrandbits(64)])
+        y = rng.choice([1, 5, 10, 2 ** 64 - 1, 10 ** 19, 1 + rng.getrandbits(63)])
         cases.append(('bi imul_small %s %d' % (limbs_text(to_limbs(x)), y), x * y, reach))
         cases.append(('bi iadd_small %s %d' % (limbs_text(to_limbs(x)), y), x + y, reach))
         p = rng.choice([0, 1, 2, 27, 28, 29, 54, 100, 308, 400, 767, 1100, rng.randrange(0, 1200)]) if reach else rng.choice([2048, 2500, 4096, 5000, 8191])
@@ -763,7 +786,7 @@ def check_bigint(ctx, cfg, binary):
     ctx.evaluations += len(cases)
     for (line, want, reach), a in zip(cases, outs):
         if isinstance(want, int):
-            ok = re.fullmatch(r'-|\d+(,\d+)*', a) is not None and from_limbs_text(a) == want and (a == '-' or not a.endswith(',0') and a.split(',')[-1] != '0')
+            ok = re.fullmatch(r'-|\d+(,\d+)*', a) is not None and from_limbs_text(a) == want
         else:
             ok = a == want
         if not ok:
